@@ -135,6 +135,11 @@ def oracle_c15(st, info, snaps):
             continue
         if info.indep:
             _write_probe(st, info, r, info.inputs)
+            for nd in info.indep_raw:
+                st.cnt("result-independent")
+                if isinstance(r.values, np.ndarray) and np.shares_memory(r.values, nd):
+                    raise Violation("result-independent", f"{info.kind}: the result shares memory with the ndarray it was given as fill value",
+                                    cls=_cls("result-independent", info), op=info.kind)
         srcs = [a.dims for a in info.inputs] + list(info.dims_passed)
         _dims_probe(st, info, r, srcs)
     if info.c05 and info.c05.get("nd") is not None:
@@ -277,6 +282,8 @@ def oracle_c05(st, info, snaps):
         want = marg[tuple(lab)]
         if t.values.dtype != np.float64 and float(np.array(want).astype(t.values.dtype)) != want:
             continue  # lossy cast into an integer / float32 target: the property does not define it
+        if t.values.dtype.kind in "iu" and not exact:
+            continue  # a float sum that is whole only up to rounding noise is truncated by an integer target (1.9999999999999998 -> 1)
         got = float(t.values[idx])
         rtol = 1e-9 if svals.dtype == np.float64 else 1e-4  # a float32 source is summed in float32
         ok = (got == want) if (exact and svals.dtype != np.float32) else (abs(got - want) <= rtol * max(1.0, scale * svals.size))
@@ -330,7 +337,7 @@ def gen_op(rng, st, cfg):
         if not st.pool and via in ("copy", "full_like"):
             via = "ctor_nd"
         op = {"op": "mk", "via": via, "dims": gen_dims(rng, st), "vseed": rng.randint(0, 10 ** 6), "src": s,
-              "num": rng.randint(-3, 9), "take": rng.randint(0, 4), "rot": rng.randint(0, 3)}
+              "num": rng.randint(-3, 9), "take": rng.randint(0, 4), "rot": rng.randint(0, 3), "fill_nd": rng.chance(0.4)}
         op["mem"] = rng.weighted([("c", 5), ("fortran", 2), ("reversed", 1), ("strided", 1)])
         if via in ("ctor_nd", "full_nd"):
             sf = gen_shape_fault(rng, fp)
@@ -445,7 +452,7 @@ def gen_op(rng, st, cfg):
               "vseed": rng.randint(0, 10 ** 6), "lt": rng.weighted([("class", 3), ("instance", 2), ("instance_twin", 1), ("instance_other", 1 if rng.chance(fp) else 0)])}
         for role in ("stock", "inflow", "outflow"):
             if rng.chance(0.5):
-                op[role] = "ok"
+                op[role] = "ok" if rng.chance(0.8) else "other_items"
         if rng.chance(fp * 2):
             f1 = rng.choice(["time_not_first", "other_dims", "fewer_dims", "twin_dims"])
             if f1 == "time_not_first":
